@@ -18,7 +18,7 @@ def vy_consts(**kw):
 
 def nq_consts(**kw):
     c = {'MThreads': '<-Threads', 'AbsStep': '<-QStep', 'NT': 2, 'Cap': 1, 'PopRetries': 0, 'MaxNodes': 3, 'Progs': '<-ProgLost', 'SetupOps': 1,
-         'KeepFin': True, 'SecondLook': True}
+         'Bounded': False, 'KeepFin': True, 'SecondLook': True}
     c.update(kw)
     return c
 
@@ -67,6 +67,18 @@ def run_models(ctx, pid):
         ctx.note('mechanism "head re-check in pop_node" (HeadRecheck = FALSE) yields no counterexample: the payload is read only after the head CAS, '
                  'which subsumes the check - not needed by any listed property')
     if pid in ('C05', 'C07'):
+        # nikolaev_bounded_queue: the same bit-level SCQ rings, one pair of them
+        jobs += [
+            lambda: tlc_mc(ctx, 'nkb_cap1', 'NikolaevQueue', nq_consts(Bounded=True, Progs='<-ProgFill', SetupOps=0, MaxNodes=1), invariants=INV_NQ, view='mcview', workers=6,
+                           must_cover=['b_deq', 'b_enq', 'b_pdeq', 'd_for', 'e_cas', 'c_cas']),
+            lambda: tlc_mc(ctx, 'nkb_cap2', 'NikolaevQueue', nq_consts(Bounded=True, Cap=2, Progs='<-ProgFill', SetupOps=0, MaxNodes=1), invariants=INV_NQ, view='mcview',
+                           workers=6, tmo=900),
+        ]
+        if not q:
+            jobs += [lambda: tlc_mc(ctx, 'nkb_cap2_retries', 'NikolaevQueue', nq_consts(Bounded=True, Cap=2, PopRetries=1, Progs='<-ProgMix', SetupOps=0, MaxNodes=1),
+                                    invariants=INV_NQ, view='mcview', workers=8, tmo=1500),
+                     lambda: tlc_mc(ctx, 'nkb_3t', 'NikolaevQueue', nq_consts(Bounded=True, Cap=2, NT=3, Progs='<-Prog3', SetupOps=0, MaxNodes=1), invariants=INV_NQ,
+                                    view='mcview', workers=12, tmo=3000, heap='24g')]
         jobs += [
             lambda: tlc_mc(ctx, 'vy_strong', 'VyukovBounded', vy_consts(), invariants=['Linearizable'], view='mcview', workers=6),
             lambda: tlc_mc(ctx, 'vy_weakmix', 'VyukovBounded', vy_consts(AllowWeak=True), invariants=['Linearizable'], view='mcview', workers=8,
